@@ -287,6 +287,78 @@ fn pipe_case(w: &World, text: &str, lines: &[&str], upto: usize) -> (bool, Optio
     result
 }
 
+/// the command line program reading standard input (`--stdin`) from a pipe whose writer stays: `LIMIT n` prints its n rows
+/// and ends although no end of input ever comes; synchronised on the pipe being drained / the process ending, 10 s bound
+fn cli_stdin_limit_case(n: usize, lines: usize) -> Result<Option<(Vec<String>, bool)>, String> {
+    use std::io::{Read, Write};
+    let bin = format!("{}/target/cli/release/sqlgrep", verif_dir());
+    if !std::path::Path::new(&bin).exists() {
+        return Ok(None);
+    }
+    static CNT: std::sync::atomic::AtomicU64 = std::sync::atomic::AtomicU64::new(0);
+    let defp = format!("{}/c07_cli_def_{}_{}.txt", sut::tmp_dir(), std::process::id(), CNT.fetch_add(1, std::sync::atomic::Ordering::Relaxed));
+    std::fs::write(&defp, "CREATE TABLE t('k=([a-z]+)' => k TEXT, 'v=([0-9]+)' => v INT);").map_err(|e| e.to_string())?;
+    let stmt = format!("SELECT v FROM t LIMIT {}", n);
+    let mut child = std::process::Command::new(&bin).args(["-d", &defp, "--stdin", "--format", "json", "-c", &stmt]).stdin(std::process::Stdio::piped()).stdout(std::process::Stdio::piped()).stderr(std::process::Stdio::null()).spawn().map_err(|e| e.to_string())?;
+    let mut stdin = child.stdin.take().unwrap();
+    let data: String = (1..=lines).map(|i| format!("k=a v={}\n", i)).collect();
+    stdin.write_all(data.as_bytes()).map_err(|e| e.to_string())?;
+    let _ = stdin.flush();
+    // the writer stays: the program has to end by itself
+    let t0 = std::time::Instant::now();
+    let mut ended = false;
+    while t0.elapsed().as_secs() < 10 {
+        if let Ok(Some(_)) = child.try_wait() {
+            ended = true;
+            break;
+        }
+        std::thread::sleep(std::time::Duration::from_millis(5));
+    }
+    if !ended {
+        let _ = child.kill();
+    }
+    drop(stdin);
+    let mut out = String::new();
+    if let Some(mut so) = child.stdout.take() {
+        let _ = so.read_to_string(&mut out);
+    }
+    let _ = child.wait();
+    std::fs::remove_file(&defp).ok();
+    Ok(Some((out.lines().filter(|l| !l.is_empty()).map(|l| l.replace(' ', "")).collect(), ended)))
+}
+
+fn cli_stdin_limit_layer(col: &Collector) -> Vec<Failure> {
+    let cases: Vec<(usize, usize)> = vec![(0, 4), (1, 4), (3, 4), (4, 4), (2, 40)];
+    let results: std::sync::Mutex<Vec<Failure>> = std::sync::Mutex::new(Vec::new());
+    let missing = std::sync::atomic::AtomicBool::new(false);
+    par_for(cases.len() as u64, |i| {
+        let (n, lines) = cases[i as usize];
+        col.eval(1);
+        col.nontrivial(h64(&("cli-stdin-limit", n, lines)));
+        match cli_stdin_limit_case(n, lines) {
+            Ok(None) => missing.store(true, std::sync::atomic::Ordering::Relaxed),
+            Err(e) => col.machinery(format!("cli --stdin LIMIT case: {}", e)),
+            Ok(Some((printed, ended))) => {
+                let want: Vec<String> = (1..=n.min(lines)).map(|i| format!("{{\"v\":{}}}", i)).collect();
+                if !ended || printed != want {
+                    results.lock().unwrap().push(fail(
+                        format!("limit:cli-stdin:{}", if !ended { "waits-for-input-after-the-nth-row" } else { "rows-differ" }),
+                        format!("sqlgrep --stdin `SELECT v FROM t LIMIT {}` fed {} lines on a pipe that stays open: ended by itself = {}, printed {:?}, expected {:?}", n, lines, ended, printed, want),
+                        json!({"layer": "cli-stdin-limit", "n": n, "lines": lines}),
+                        json!({"ended": true, "printed": want}),
+                        json!({"ended": ended, "printed": printed}),
+                        n as u64,
+                    ));
+                }
+            }
+        }
+    });
+    if !missing.load(std::sync::atomic::Ordering::Relaxed) {
+        col.layer("command line program: --stdin with LIMIT n on a pipe whose writer stays", cases.len() as u64, true, json!({"cases": cases}));
+    }
+    results.into_inner().unwrap()
+}
+
 fn pipe_layer(w: &World, col: &Collector) {
     let jl = jlines();
     let input: Vec<&str> = [0usize, 1, 5, 2, 3, 4, 0, 1].iter().map(|i| jl[*i]).collect();
@@ -440,6 +512,9 @@ pub fn run(ctx: &Ctx) -> i32 {
     }
     huge_limit_layer(&w, &col);
     pipe_layer(&w, &col);
+    for f in cli_stdin_limit_layer(&col) {
+        col.fail(f);
+    }
     limit_layout_layer(&w, &col);
     col.layer("limit x files", done, complete, json!({"statements": nst, "line_sequences": nseq, "max_len": maxlen, "max_files": 3}));
     // an aggregate result requested again from the same engine (update-only lines, result, more lines, result) keeps the first n groups
@@ -583,6 +658,9 @@ pub fn run(ctx: &Ctx) -> i32 {
 }
 
 pub fn replay(case: &J) -> Vec<Failure> {
+    if case["layer"].as_str() == Some("cli-stdin-limit") {
+        return cli_stdin_limit_layer(&Collector::new()).into_iter().filter(|f| f.case == *case).collect();
+    }
     let w = world();
     if matches!(case["layer"].as_str(), Some("pipe") | Some("limit-layout")) {
         let col = Collector::new();
